@@ -14,13 +14,21 @@ bad=0
 for id in $ids; do
   prop=$(python3 -c "import json;print(json.load(open('seeded/$id/meta.json'))['property'])")
   extra=$(python3 -c "import json;print(' '.join(json.load(open('seeded/$id/meta.json')).get('also_check',[])))")
-  (cd "$wt" && git checkout -q -- . && git clean -fdq)
-  if ! (cd "$wt" && git apply "/verif/seeded/$id/patch.diff" 2>/dev/null); then
-    if (cd "$wt" && git apply -3 "/verif/seeded/$id/patch.diff" >/dev/null 2>&1); then :; else echo "$id $prop: patch no longer applies to HEAD (skipped)"; (cd "$wt" && git checkout -q -- . ); continue; fi
+  if python3 -c "import json,sys;sys.exit(0 if json.load(open('seeded/$id/meta.json')).get('neutralised_by') else 1)"; then echo "$id $prop: neutralised by a later fix (skipped, see meta.json)"; continue; fi
+  (cd "$wt" && git reset -q --hard HEAD && git clean -fdq)
+  patch="/verif/seeded/$id/patch.diff"
+  # a seed whose context lines were touched by a later fix: commit keeps a copy re-cut against the current HEAD
+  [ -f "/verif/seeded/$id/patch.head.diff" ] && patch="/verif/seeded/$id/patch.head.diff"
+  if ! (cd "$wt" && git apply "$patch" 2>/dev/null); then
+    echo "$id $prop: patch no longer applies to HEAD (needs seeded/$id/patch.head.diff)"; bad=1; continue
   fi
-  out=$(VERIF_REPO="$wt" ./bin/check $prop quick -no-evidence -samples 0 2>&1); rc=$?
-  n=$(echo "$out" | grep -c '^VIOLATION')
-  if [ $rc -eq 1 ] && [ $n -gt 0 ]; then echo "$id $prop: caught ($n violations)"; else echo "$id $prop: NOT CAUGHT rc=$rc"; bad=1; fi
+  caught=0
+  for pp in $prop $extra; do
+    out=$(VERIF_REPO="$wt" ./bin/check $pp quick -no-evidence -samples 0 2>&1); rc=$?
+    n=$(echo "$out" | grep -c '^VIOLATION')
+    if [ $rc -eq 1 ] && [ $n -gt 0 ]; then echo "$id $pp: caught ($n violations)"; caught=1; break; else echo "$id $pp: not caught rc=$rc"; fi
+  done
+  if [ $caught -eq 0 ]; then echo "$id: NOT CAUGHT"; bad=1; fi
 done
 rm -f replays/*.json
 exit $bad
